@@ -317,7 +317,10 @@ def _r3(ck: Checker, prog: Program):
             raise AnalysisError(f"{fq}: expected one ax.{draw}() call, found {len(draws)}")
         d = draws[0]
         acc = [c for a in d.args for c in calls_in(a, accessor)]
-        good = len(acc) == 1 and isinstance(acc[0].func, ast.Attribute) and isinstance(acc[0].func.value, ast.Name) \
+        # the drawn argument IS the accessor's value (possibly unpacked with *), not something computed from it (clipped, scaled, ...)
+        direct = [a.value if isinstance(a, ast.Starred) else a for a in d.args]
+        wrapped = [a for a in direct if calls_in(a, accessor) and not (isinstance(a, ast.Call) and call_name(a) == accessor)]
+        good = len(acc) == 1 and not wrapped and isinstance(acc[0].func, ast.Attribute) and isinstance(acc[0].func.value, ast.Name) \
             and acc[0].func.value.id == "hvsr"
         detail = ""
         if good:
@@ -337,6 +340,8 @@ def _r3(ck: Checker, prog: Program):
             if good and not reaching(f).only_param("hvsr", acc[0]):
                 good = False
                 detail = "`hvsr` is rebound before the accessor call"
+        elif wrapped:
+            detail = f"what is drawn is `{unparse(wrapped[0])[:80]}`: computed from hvsr.{accessor}(...), not the accessor's value itself"
         else:
             detail = f"the drawn data are not a direct call of hvsr.{accessor}(...)"
         if good:
